@@ -7,6 +7,8 @@ Every operand tuple goes through both entrances of the SUT:
              yields null" and "no evaluation ever produces an infinite or NaN value" are judged.
 The oracle is pbt/oracles/c02_ref.py (CPython decimal as decimal128, exact rationals, 80-digit references)."""
 import decimal
+import os
+import re
 import sys
 from decimal import Decimal
 
@@ -399,8 +401,79 @@ def gen_mul(src):
     return small_int_t(src), small_int_t(src), shape
 
 
+_UNITS = None
+UNIT_EDGES = [0, 1, 250000000, 500000000, 750000000, 999999999, 1000000, 100000000, 1000001, 249999999, 250000001, 499999999, 500000001,
+              749999999, 750000001, 999999998, 2]
+
+
+def unit_dictionary():
+    """base-10^9 units for coefficients built unit by unit (the library computes in such units): every number of 4..9 digits written
+    in the arithmetic sources of the C library (the quarter steps 250000000/500000000/750000000 of the divide estimate, ...), each with
+    its neighbours, plus the generic edges. Falls back to the generic edges when the sources cannot be read."""
+    global _UNITS
+    if _UNITS is None:
+        found = set()
+        base = os.path.join(os.environ.get("VERIF_REPO", "/repo"), "feel-number", "decnumber")
+        for fn in ("decBasic.c", "decNumber.c", "decCommon.c", "decNumberLocal.h"):
+            try:
+                with open(os.path.join(base, fn), errors="replace") as f:
+                    text = f.read()
+            except OSError:
+                continue
+            for m in re.finditer(r"(?<![0-9A-Za-z_.])([1-9][0-9]{3,8})(?![0-9A-Za-z_.])", text):
+                found.add(int(m.group(1)))
+        generic = {0, 1, 2, 9, 10, 999, 1000, 999999, 1000000, 1000001, 99999999, 100000000, 250000000, 500000000, 750000000, 999999998, 999999999}
+        units = set(generic)
+        for v in found:
+            if v <= 999999999:
+                units.update(x for x in (v - 1, v, v + 1) if 0 <= x <= 999999999)
+        _UNITS = sorted(units)
+    return _UNITS
+
+
+def unit_coeff(src, nunits=None):
+    """coefficient text (<= 34 digits) made of 2..4 base-10^9 units drawn from the dictionary (or random)"""
+    d = unit_dictionary()
+    n = nunits or src.int(2, 4)
+    units = []
+    for i in range(n):
+        k = src.weighted([(5, "edge"), (3, "source"), (2, "random")])
+        u = src.choice(UNIT_EDGES) if k == "edge" else d[src.int(0, len(d) - 1)] if k == "source" else src.int(0, 999999999)
+        units.append(u)
+    if units[0] == 0:
+        units[0] = src.choice([1, 1000000, 250000000, 999999999])
+    if n == 4 and units[0] > 9999999:
+        units[0] = units[0] % 10000000 or 1            # 34 digits = 7 + 27
+    text = str(units[0]) + "".join("%09d" % u for u in units[1:])
+    return text, units
+
+
+def gen_units_pair(src):
+    """divisor built from dictionary units; dividend = a prefix of the divisor's digits (optionally +-1 in its last place, padded with
+    zeros or followed by dictionary units): quotients sitting exactly at the edge of a quotient-unit estimate"""
+    cb, units = unit_coeff(src)
+    how = src.weighted([(5, "prefix"), (2, "prefix+-1"), (2, "units"), (1, "multiple")])
+    if how in ("prefix", "prefix+-1"):
+        cut = src.choice([len(str(units[0])) + 9 * k for k in range(len(units))] + [src.int(1, len(cb))])
+        cut = max(1, min(cut, len(cb)))
+        v = int(cb[:cut])
+        if how == "prefix+-1":
+            v = max(1, v + src.choice([1, -1]))
+        ca = str(v) + "0" * src.choice([0, 0, 9, 18, src.int(0, 34 - len(str(v)))])
+    elif how == "units":
+        ca, _ = unit_coeff(src)
+    else:
+        ca = str(int(cb) * src.int(1, 10 ** 9))
+    ca = ca[:34]
+    e = src.int(-40, 40)
+    return [sgn(src), ca, e + src.int(-40, 40)], [sgn(src), cb, e]
+
+
 def gen_div(src):
-    shape = src.weighted([(4, "rand"), (4, "near"), (4, "tie"), (3, "exact"), (3, "edge-hi"), (3, "edge-lo"), (2, "by-zero"), (2, "small")])
+    shape = src.weighted([(4, "rand"), (4, "near"), (4, "tie"), (3, "exact"), (3, "edge-hi"), (3, "edge-lo"), (2, "by-zero"), (2, "small"), (5, "units")])
+    if shape == "units":
+        a, b = gen_units_pair(src)
+        return a, b, shape
     if shape == "rand":
         return rand_t(src), rand_t(src), shape
     if shape == "near":
@@ -501,8 +574,11 @@ def gen_pow(src):
 
 
 def gen_modulo(src):
-    shape = src.weighted([(4, "small"), (4, "near"), (3, "rand"), (3, "quotient-cross"), (3, "quotient-big"), (2, "tiny-dividend"), (2, "by-zero"), (2, "multiple")])
-    if shape == "small":
+    shape = src.weighted([(4, "small"), (4, "near"), (3, "rand"), (3, "quotient-cross"), (3, "quotient-big"), (2, "tiny-dividend"), (2, "by-zero"), (2, "multiple"),
+                          (4, "units")])
+    if shape == "units":
+        a, b = gen_units_pair(src)
+    elif shape == "small":
         a = [sgn(src), dec.gen_coeff(src, 6), src.int(-3, 2)]
         b = [sgn(src), dec.gen_coeff(src, 4), src.int(-3, 2)]
     elif shape == "near":
@@ -714,6 +790,11 @@ def gen_case(src):
     return {"op": op, "a": fix_t(a), "b": fix_t(b), "shape": shape}
 
 
+def gen_units_case(src):
+    a, b = gen_units_pair(src)
+    return {"op": src.choice(["div", "div", "modulo", "mul"]), "a": fix_t(a), "b": fix_t(b), "shape": "units"}
+
+
 def gen_pow_edge_case(src):
     a, b, shape = gen_pow_edge(src)
     return {"op": "pow", "a": fix_t(a), "b": fix_t(b), "shape": shape}
@@ -780,6 +861,7 @@ def setup(ctx):
                        "odd/even of a non-integer: false or null accepted"]
     ctx.p_rand = ctx.register(Part("tuples", gen_case, reqs_case, judge_case))
     ctx.p_powedge = ctx.register(Part("pow-edge", gen_pow_edge_case, reqs_case, judge_case))
+    ctx.p_units = ctx.register(Part("units", gen_units_case, reqs_case, judge_case))
     ctx.p_grid = ctx.register(Part("grid", None, reqs_case, judge_case))
 
 
@@ -788,6 +870,7 @@ def run(ctx):
                   exhaustive=True)
     ctx.forall(ctx.p_rand, ctx.scale(45000, 3000000), batch=300)
     ctx.forall(ctx.p_powedge, ctx.scale(60000, 3000000), batch=300)
+    ctx.forall(ctx.p_units, ctx.scale(40000, 3000000), batch=300)
 
 
 if __name__ == "__main__":
